@@ -44,6 +44,11 @@ with bexp :=
 | BEq (a b : aexp) | BNe (a b : aexp)
 | BAnd (a b : bexp) | BOr (a b : bexp) | BNot (a : bexp).
 
+(* the names an iterator constructed by CpuContext::valid_registers walks: a slice of a REGISTERS table
+   (`CpuRegistersInner::Slice(<T>::REGISTERS[a..b].iter())`, resolved by the translator to the names themselves)
+   or the validity set (`CpuRegistersInner::Set(valid.iter())`) *)
+Inductive names_src := NList (l : list name) | NSet.
+
 Record ctx_table := {
   ct_name : name;                              (* CONTEXT_X86 ... *)
   ct_variant : name;                           (* MinidumpRawContext variant *)
@@ -53,6 +58,9 @@ Record ctx_table := {
   ct_set : list (list name * loc);             (* set_register arms, in order: the place assigned; `_ => return None` *)
   ct_set_val : list (list name * aexp);        (* set_register arms: the value assigned, an expression over [AVar v_val] = `val` *)
   ct_memo : list (list name * name);         (* memoize_register arms; `_ => default_memoize_register(REGISTERS, reg)` *)
+  ct_memo_tbl : list name;                     (* the table memoize_register's default looks the name up in: the first argument of
+                                                    `default_memoize_register(<T>::REGISTERS, reg)` (the `_` arm of the type's own body, or the
+                                                    trait default), resolved to the names *)
   ct_memo_cmp : Z;                               (* the comparison inside default_memoize_register's `position` closure:
                                                     0 = `*val == reg` (exact), 1 = eq_ignore_ascii_case *)
   ct_groups : list (list name * list name);  (* register_is_valid, Some(which): patterns => which.contains(a) || ...; `_ => which.contains(reg)` *)
@@ -73,6 +81,18 @@ Record ctx_table := {
   ct_md_get : aexp;                              (* MinidumpContext::get_register_always arm *)
   ct_md_valid : bexp;                            (* MinidumpContext::get_register: the arm of `let valid = match ..` *)
   ct_md_filter : bexp;                           (* MinidumpContext::valid_registers: the arm of the filter closure *)
+  (* CpuContext::valid_registers: `let regs = match valid { All => <ct_iter_all>, Some(valid) => <ct_iter_some> }` *)
+  ct_iter_all : names_src;
+  ct_iter_some : names_src;
+  (* CpuRegisters::next: `let reg = match &mut self.regs { Slice(iter) => iter.<next() | nth(K)>, Set(iter) => iter.<next() | nth(K)> }?;
+     Some((reg, <ct_next_val>))`: how many names each arm consumes before the one it yields (next() = 0, nth(K) = K) and the
+     value paired with the name, an expression over [AVar v_ga] = `self.context.get_register_always(reg)` *)
+  ct_next_slice : Z; ct_next_set : Z;
+  ct_next_val : aexp;
+  (* MinidumpContext::registers: `.map(move |&reg| (reg, <ct_md_regs_val>))`, over [AVar v_mga] = `self.get_register_always(reg)` *)
+  ct_md_regs_val : aexp;
+  (* MinidumpContext::register_size arm for this variant, over [AVar v_size] = `get(ctx)` = `std::mem::size_of::<T::Register>()` *)
+  ct_md_size : aexp;
   ct_fields : list (name * Z * Z * Z);               (* the struct's integer fields: (name, element width, array length or -1, byte offset in the serialised struct) *)
   ct_gpr : list name                           (* MinidumpContext::general_purpose_registers arm (REGISTERS of the named type) *)
 }.
@@ -82,3 +102,5 @@ Definition v_memo : name := [36; 109; 101; 109; 111].                    (* "$me
 Definition v_contains : name := [36; 99; 111; 110; 116; 97; 105; 110; 115]. (* "$contains" *)
 Definition v_ga : name := [36; 103; 97].   (* "$ga" *)
 Definition v_iv : name := [36; 105; 118].  (* "$iv" *)
+Definition v_mga : name := [36; 109; 103; 97].  (* "$mga" *)
+Definition v_size : name := [36; 115; 105; 122; 101].  (* "$size" *)
